@@ -14,7 +14,7 @@ from mc.netlist import NL, STYLES, build
 
 PROP = 'C02'
 LEVEL = 'exploration'
-RULE = ('cases = netlist (T1 single gate incl. unconnected pins, T2 two-gate with shared inputs, T3 structural with state elements, T4) x '
+RULE = ('cases = netlist (T1 single gate incl. unconnected pins, T2 two-gate with shared inputs, T3 structural with state elements, T4, constants family; the constants family, T4 and a slice of T1 also with c_reuse=True on an object that first propagated a rotated assignment) x '
         'build style x logic m in {4,8}; every case simulates ALL 4^n / 8^n assignments (n = inputs + state elements <= 4) in one batch; '
         'oracles: (a) captured value == reference algebra (X and - identified), (b) every 0/1 result agrees with the 2-valued reference on '
         'every 0/1 completion of the unknown inputs, (c) 8-valued: initial/final components == 2-valued reference of the inputs\' components; '
@@ -29,6 +29,7 @@ def tasks(tier, seed):
     for sl in range(32): t.append(('t2s', sl, 32, tier, seed))
     t.append(('t4', 0, 1, tier, seed))
     t.append(('big', 0, 1, tier, seed))
+    t.append(('consts', 0, 1, tier, seed))
     if tier == 'quick':
         for sk, gk in F.t3_shards(1, 1, F.T3_KINDS): t.append(('t3', 2, sk, gk, tier, seed))
         for sk, gk in F.t3_shards(0, 2, F.T3_KINDS_QUICK): t.append(('t3', 2, sk, gk, tier, seed))
@@ -58,6 +59,9 @@ def gen(task):
         return F.take_slice(g, task[2], task[1])
     if fam == 't4': return F.t4()
     if fam == 'big': return F.big()
+    if fam == 'consts':
+        from checks.c16 import consts
+        return consts()
     if fam == 't3': return F.t3_shard(task[1], task[2], task[3], extra_tap=False)
     raise KeyError(fam)
 
@@ -66,10 +70,12 @@ def run_task(task):
     res = common.Result()
     tier, seed = task[-2], task[-1]
     for idx, nl in enumerate(gen(task)):
-        styles = range(len(STYLES)) if (tier == 'thorough' and task[0] != 't1') or task[0] == 't4' else [idx % len(STYLES)]
+        styles = range(len(STYLES)) if (tier == 'thorough' and task[0] != 't1') or task[0] in ('t4', 'consts') else [idx % len(STYLES)]
         for si in styles:
             for m in (4, 8):
                 check_case(res, {'nl': nl.to_json(), 'style': si, 'm': m, 'fam': task[0], 'mode': 'full'})
+                if task[0] in ('consts', 't4') or (task[0] == 't1' and idx % 7 == seed % 7):
+                    check_case(res, {'nl': nl.to_json(), 'style': si, 'm': m, 'fam': task[0], 'mode': 'full', 'reuse': True})
         if task[0] in ('t2s', 't4') and idx % 23 == seed % 23:
             check_case(res, {'nl': nl.to_json(), 'style': idx % len(STYLES), 'm': 8, 'fam': task[0], 'mode': 'batch'})
             check_case(res, {'nl': nl.to_json(), 'style': idx % len(STYLES), 'm': 4, 'fam': task[0], 'mode': 'batch'})
@@ -84,7 +90,7 @@ def replay(case):
 
 
 def _key(case, what):
-    return f'C02/{what}/m{case["m"]}/{common.h64(case["nl"]):016x}/s{case["style"]}/{case["mode"]}'
+    return f'C02/{what}/m{case["m"]}/{common.h64(case["nl"]):016x}/s{case["style"]}/{case["mode"]}{"-reuse" if case.get("reuse") else ""}'
 
 
 def lanes(n, A):
@@ -128,7 +134,14 @@ def check_case(res, case):
                     res.count('batch_runs')
             res.sig((case['nl'], m, 'batch'))
             return
-        sim = LogicSim(b.circuit, sims=n, m=m)
+        sim = LogicSim(b.circuit, sims=n, m=m, c_reuse=bool(case.get('reuse')))
+        if case.get('reuse'):
+            # signal memory is re-used between levels, and the same object first propagates another assignment (lanes rotated):
+            # nothing of that first propagation may show in the second
+            for k in range(nI): lsim.assign_codes(sim, ipos[k], np.roll(vals[k], 3) ^ np.uint8(m - 1 if m == 4 else 3))
+            for k in range(nS): lsim.assign_codes(sim, spos[k], np.roll(vals[nI + k], 5))
+            sim.s_to_c(); sim.c_prop(); sim.c_to_s()
+            res.count('reuse_second_propagations')
         for k in range(nI): lsim.assign_codes(sim, ipos[k], vals[k])
         for k in range(nS): lsim.assign_codes(sim, spos[k], vals[nI + k])
         sim.s_to_c(); sim.c_prop(); sim.c_to_s()
@@ -195,7 +208,7 @@ def check_case(res, case):
 
 
 def finish(agg, tier):
-    need = ['completions_checked', 'component_lanes', 'batch_runs', 'nontrivial']
+    need = ['completions_checked', 'component_lanes', 'batch_runs', 'nontrivial', 'reuse_second_propagations']
     missing = [k for k in need if not agg.counters.get(k)]
     if missing: raise common.HarnessError(f'vacuity guard: {missing} zero')
     return {}
